@@ -193,18 +193,26 @@ def sampler_digest(sc):
     return h.hexdigest()[:16], []
 
 
+SAMPLER_HANGS = [0]
+
+
 def record_sampler(sc):
     rnd = random.Random(sc["hseed"])
     runs = []
 
     def one(label, pre):
         r = dict(label=label, digest="", raised="", has_draws=False, draws=[])
+        if SAMPLER_HANGS[0] >= 2:        # the samplers do not terminate on this tree: enough evidence, do not burn the time budget
+            r["raised"] = "Hang"
+            runs.append(r)
+            return
         try:
-            with time_limit(300):
+            with time_limit(120):
                 for step in pre:
                     perturb(step, dict(sc, g=dict(nodes=["u"], kind=dict(u="prior_scipy"), pos=dict(u=[0, 1]), value={})), rnd)
                 r["digest"], _ = sampler_digest(sc)
         except Hang:
+            SAMPLER_HANGS[0] += 1
             r["raised"] = "Hang"
         except Exception as ex:
             r["raised"] = "%s: %s" % (type(ex).__name__, str(ex)[:80])
